@@ -126,7 +126,7 @@ def _discharge(ob, timeout_ms, unfolder=None, lemmas=(), twin_lemmas=()):
             except z3.Z3Exception:
                 pass
     s = z3.Solver()
-    s.set("timeout", timeout_ms)
+    s.set("timeout", min(timeout_ms, 3000) if ob.expect_sat else timeout_ms)
     for p in ob.pc:
         s.add(p)
     if ob.expect_sat:
